@@ -264,6 +264,31 @@ pub fn run(cfg: &Cfg) {
         float_case(&mut cx, &ax, &queries, false, false, "long", None);
     }
 
+    // 3b. axes of huge magnitude: knots c_i * 2^1019 with 0 <= c_i <= 30, so that the span and
+    //     (len-1)/span are finite (C11's hypotheses) while (len-1)*(q-x0) would not be
+    let nhuge = if thorough { 400 } else { 60 };
+    for _ in 0..nhuge {
+        let n = rng.range(2, 9) as usize;
+        let mut cs: Vec<i64> = vec![];
+        let mut c = rng.range(0, 4);
+        for _ in 0..n { cs.push(c); c += rng.range(1, 4); }
+        if *cs.last().unwrap() > 30 { continue; }
+        let unit = (2.0f64).powi(1019);
+        let sign = if rng.coin() { 1.0 } else { -1.0 };
+        let mut ax: Vec<f64> = cs.iter().map(|&k| sign * k as f64 * unit).collect();
+        if sign < 0.0 { ax.reverse(); }
+        let mut queries = vec![f64::INFINITY, f64::NEG_INFINITY, f64::MAX, f64::MIN, 0.0];
+        for w in ax.windows(2) {
+            queries.push(w[0]);
+            queries.push(w[0] / 2.0 + w[1] / 2.0);
+            queries.push(next_down(w[1]));
+            queries.push(next_up(w[0]));
+        }
+        cx.rep.count("huge-magnitude(2^1019)");
+        cx.rep.eval(Some(&format!("huge{:?}", ax)));
+        float_case(&mut cx, &ax, &queries, false, true, "huge-magnitude", None);
+    }
+
     // 4. integer axes
     let nint = if thorough { 1500 } else { 150 };
     for _ in 0..nint {
@@ -283,6 +308,21 @@ pub fn run(cfg: &Cfg) {
         cx.rep.count(if small { "integer:i32+i64" } else { "integer:i64" });
         cx.rep.eval(Some(&format!("{:?}", ax)));
         int_case(&mut cx, &ax, &queries, small);
+    }
+    // 4b. i32 axes with a large span and many knots: (len-1)*(q-x0) exceeds i32 although the span does not
+    for _ in 0..(if thorough { 12 } else { 3 }) {
+        let n = rng.range(1500, 2500) as usize;
+        let step = rng.range(500, 900);
+        let start = rng.range(-100000, 100000);
+        let ax: Vec<i64> = (0..n).map(|i| start + i as i64 * step).collect();
+        let mut queries = vec![ax[0], ax[n - 1], ax[0] - 5, ax[n - 1] + 5];
+        for _ in 0..40 {
+            let k = rng.below((n - 1) as u64) as usize;
+            queries.extend([ax[k], ax[k] + 1, ax[k] + step / 2, ax[k + 1] - 1]);
+        }
+        cx.rep.count("integer:i32-large-span");
+        cx.rep.eval(Some(&format!("i32span{}{}", n, step)));
+        int_case(&mut cx, &ax, &queries, true);
     }
     let covered = cx.pairs.len() as i64;
     drop(cx);
